@@ -12,6 +12,13 @@
 // operation, the number of ForEachItem calls seen in between is the number of responses that must
 // still arrive. After UnregisterPeer 40 sentinel round trips are pushed (the reader selects randomly
 // between its two channels; the unregister is still queued afterwards with probability 2^-40).
+//
+// TestC17Pipelined drives the seeder with overlapping requests: SendChunk of some peers is held back
+// (per-peer gates, optionally released one call at a time) while further requests resume the same
+// sessions or work on sessions of other peers. Only the reader loop is awaited between requests
+// (sentinel), the responses are collected when the gates are opened at the end of a window. Besides
+// the session-table model, the order in which SendChunk is CALLED for one session is compared with
+// the order in which the seeder produced the responses (see pipelined_test.go).
 package c17
 
 import (
@@ -91,6 +98,26 @@ const sentinelPeer = "~sentinel"
 type respRec struct {
 	mem      int
 	finished bool
+	seq      int  // production order (ForEachItem calls of ordinary requests)
+	called   bool // SendChunk was called with this payload
+	callIdx  int  // position in the global order of SendChunk calls
+	peer     string
+	resp     basestream.Response
+	keys     []int
+}
+
+// sentinelPayload is the payload of a sentinel session that is never done (reuse mode); it does
+// not count towards the pending response memory.
+type sentinelPayload struct{ n int }
+
+func (p *sentinelPayload) Len() int          { return p.n }
+func (p *sentinelPayload) TotalSize() uint64 { return 0 }
+func (p *sentinelPayload) TotalMemSize() int { return 0 }
+
+// peerGate holds back the SendChunk calls of one peer; tokens let single calls through.
+type peerGate struct {
+	closed bool
+	tokens int
 }
 
 type harness struct {
@@ -109,6 +136,16 @@ type harness struct {
 	gate         chan struct{} // non-nil: SendChunk of ordinary peers blocks on it
 	blockedSends int
 
+	cond          *sync.Cond           // on mu; peer gates
+	peerGates     map[string]*peerGate // per-peer gates (pipelined unit)
+	produced      []*respRec           // all responses of ordinary requests in production order
+	calls         []*respRec           // the same in the order in which SendChunk was called
+	finishedCount int
+	finishedOf    map[string]int // per peer: SendChunk calls that returned
+	sentinelReuse bool           // the sentinel resumes one endless session instead of opening a new one per barrier
+	sentinelSent  int            // sentinel responses whose SendChunk was called
+	stallAfter    time.Duration
+
 	recv map[string][]basestream.Response
 	misb map[string][]error
 
@@ -124,7 +161,12 @@ func newHarness(cfg basestreamseeder.Config, universe []item) *harness {
 		cfg:      cfg,
 		recv:     map[string][]basestream.Response{},
 		misb:     map[string][]error{},
+
+		peerGates:  map[string]*peerGate{},
+		finishedOf: map[string]int{},
+		stallAfter: 25 * time.Millisecond,
 	}
+	h.cond = sync.NewCond(&h.mu)
 	h.seeder = basestreamseeder.New(cfg, basestreamseeder.Callbacks{ForEachItem: h.forEachItem})
 	h.seeder.Start()
 	return h
@@ -166,8 +208,19 @@ func (h *harness) forEachItem(start basestream.Locator, rt basestream.RequestTyp
 		h.feCalls++
 		h.feTypes = append(h.feTypes, rt)
 	}
+	reuse := h.sentinelReuse
 	h.signal()
 	h.mu.Unlock()
+
+	if rt == sentinelType && reuse {
+		// one item per response, never done: the barrier resumes this session for ever
+		sp := &sentinelPayload{}
+		if onKey(start) {
+			sp.n = 1
+			onAppended(sp)
+		}
+		return sp
+	}
 
 	p := &payload{}
 	s := int(start.(loc))
@@ -184,7 +237,8 @@ func (h *harness) forEachItem(start basestream.Locator, rt basestream.RequestTyp
 
 	if rt != sentinelType {
 		h.mu.Lock()
-		p.rec = &respRec{mem: p.TotalMemSize()}
+		p.rec = &respRec{mem: p.TotalMemSize(), seq: len(h.produced), keys: p.keys}
+		h.produced = append(h.produced, p.rec)
 		h.outstanding = append(h.outstanding, p.rec)
 		if p.rec.mem > h.maxMem {
 			h.maxMem = p.rec.mem
@@ -199,6 +253,15 @@ func (h *harness) peer(id string) basestreamseeder.Peer {
 		ID: id,
 		SendChunk: func(r basestream.Response) error {
 			h.mu.Lock()
+			// the call order is recorded at entry: calls of one session are serialized by its sender thread
+			if p, ok := r.Payload.(*payload); !ok || p == nil || p.rec == nil {
+				h.fail("SendChunk(%s) was called with a payload that ForEachItem did not produce: %T", id, r.Payload)
+			} else if p.rec.called {
+				h.fail("SendChunk(%s) was called twice with the same response {sid=%d done=%v items=%v}", id, r.SessionID, r.Done, p.keys)
+			} else {
+				p.rec.called, p.rec.callIdx, p.rec.peer, p.rec.resp = true, len(h.calls), id, r
+				h.calls = append(h.calls, p.rec)
+			}
 			g := h.gate
 			if g != nil {
 				h.blockedSends++
@@ -208,9 +271,17 @@ func (h *harness) peer(id string) basestreamseeder.Peer {
 				<-g
 			}
 			h.mu.Lock()
+			for pg := h.peerGates[id]; pg != nil && pg.closed && pg.tokens == 0; pg = h.peerGates[id] {
+				h.cond.Wait()
+			}
+			if pg := h.peerGates[id]; pg != nil && pg.closed {
+				pg.tokens--
+			}
 			h.recv[id] = append(h.recv[id], r)
-			if p, ok := r.Payload.(*payload); ok && p.rec != nil {
+			h.finishedOf[id]++
+			if p, ok := r.Payload.(*payload); ok && p.rec != nil && !p.rec.finished {
 				p.rec.finished = true
+				h.finishedCount++
 				k := 0
 				for _, o := range h.outstanding {
 					if !o.finished {
@@ -235,8 +306,13 @@ func (h *harness) peer(id string) basestreamseeder.Peer {
 
 func (h *harness) sentinelPeerStruct() basestreamseeder.Peer {
 	return basestreamseeder.Peer{
-		ID:           sentinelPeer,
-		SendChunk:    func(basestream.Response) error { return nil },
+		ID: sentinelPeer,
+		SendChunk: func(basestream.Response) error {
+			h.mu.Lock()
+			h.sentinelSent++
+			h.mu.Unlock()
+			return nil
+		},
 		Misbehaviour: func(error) {},
 	}
 }
@@ -249,13 +325,30 @@ func (h *harness) closeGate() {
 	h.mu.Unlock()
 }
 
+// openGate opens the global gate and every peer gate.
 func (h *harness) openGate() {
 	h.mu.Lock()
 	if h.gate != nil {
 		close(h.gate)
 		h.gate = nil
 	}
+	for _, pg := range h.peerGates {
+		pg.closed, pg.tokens = false, 0
+	}
+	h.cond.Broadcast()
 	h.mu.Unlock()
+}
+
+func (h *harness) anyGateClosed() bool {
+	if h.gate != nil {
+		return true
+	}
+	for _, pg := range h.peerGates {
+		if pg.closed {
+			return true
+		}
+	}
+	return false
 }
 
 const hardTimeout = 60 * time.Second
@@ -271,11 +364,11 @@ func (e errTimeout) Error() string { return e.msg }
 // limit or on a full sender queue; opening early only lowers the pressure, never the soundness).
 func (h *harness) waitFor(what string, cond func() bool) error {
 	deadline := time.Now().Add(hardTimeout)
-	const stallAfter = 25 * time.Millisecond
+	stallAfter := h.stallAfter
 	for {
 		h.mu.Lock()
 		ok := cond()
-		gated := h.gate != nil
+		gated := h.anyGateClosed()
 		h.mu.Unlock()
 		if ok {
 			return nil
@@ -308,9 +401,13 @@ func (h *harness) barrier() error {
 	want := h.sentinelSeen + 1
 	h.sentinelID++
 	sid := h.sentinelID
+	sess := basestream.Session{ID: sid, Start: loc(0), Stop: loc(0)}
+	if h.sentinelReuse {
+		sess = basestream.Session{ID: 1, Start: loc(0), Stop: loc(math.MaxInt32)}
+	}
 	h.mu.Unlock()
 	err, perr := h.seeder.NotifyRequestReceived(h.sentinelPeerStruct(), basestream.Request{
-		Session:        basestream.Session{ID: sid, Start: loc(0), Stop: loc(0)},
+		Session:        sess,
 		Type:           sentinelType,
 		MaxPayloadNum:  1,
 		MaxPayloadSize: 1,
@@ -482,22 +579,18 @@ type applyInfo struct {
 
 // apply checks what the seeder did for one request against the model and advances the model.
 func (m *model) apply(r reqDesc, o outcome) (applyInfo, error) {
+	s, info := m.admit(r)
+	return m.check(r, s, info, o)
+}
+
+// admit advances the session table for one request (it depends on the requests only): a request
+// above the configured chunk limit is rejected before it reaches the table, an unknown session ID
+// opens a session (dropping the oldest one when three are held), a known one is resumed.
+func (m *model) admit(r reqDesc) (*mSession, applyInfo) {
 	var info applyInfo
-	if o.err != nil {
-		return info, fmt.Errorf("NotifyRequestReceived returned err=%v on a running seeder", o.err)
-	}
 	if r.Chunks > m.cfg.MaxResponseChunks {
 		info.tooMany = true
-		if !errors.Is(o.peerErr, basestreamseeder.ErrTooManyChunks) {
-			return info, fmt.Errorf("MaxChunks %d above the configured %d: want ErrTooManyChunks, got %v", r.Chunks, m.cfg.MaxResponseChunks, o.peerErr)
-		}
-		if len(o.responses) != 0 || len(o.misb) != 0 {
-			return info, fmt.Errorf("rejected request still caused %s / misbehaviour %v", describeResponses(o.responses), o.misb)
-		}
-		return info, nil
-	}
-	if o.peerErr != nil {
-		return info, fmt.Errorf("unexpected peer error %v", o.peerErr)
+		return nil, info
 	}
 	mp := m.peer(r.Peer)
 	s := m.find(r.Peer, r.SID)
@@ -515,16 +608,40 @@ func (m *model) apply(r reqDesc, o outcome) (applyInfo, error) {
 		info.resumed = true
 		if s.start != r.Start {
 			info.mismatch = true
-			if len(o.misb) != 1 || !errors.Is(o.misb[0], basestreamseeder.ErrSelectorMismatch) {
-				return info, fmt.Errorf("live session %d was opened at %d, request says %d: want one Misbehaviour(ErrSelectorMismatch), got %v", s.sid, s.start, r.Start, o.misb)
-			}
-			if len(o.responses) != 0 {
-				return info, fmt.Errorf("selector mismatch must not be answered, got %s", describeResponses(o.responses))
-			}
-			return info, nil
+			return s, info
 		}
 	}
 	info.heldThree = len(mp.live) == 3
+	return s, info
+}
+
+// check compares what the seeder did for one admitted request with the model and advances the
+// delivery state of its session. Requests must be checked in the order in which they were admitted.
+func (m *model) check(r reqDesc, s *mSession, info applyInfo, o outcome) (applyInfo, error) {
+	if o.err != nil {
+		return info, fmt.Errorf("NotifyRequestReceived returned err=%v on a running seeder", o.err)
+	}
+	if info.tooMany {
+		if !errors.Is(o.peerErr, basestreamseeder.ErrTooManyChunks) {
+			return info, fmt.Errorf("MaxChunks %d above the configured %d: want ErrTooManyChunks, got %v", r.Chunks, m.cfg.MaxResponseChunks, o.peerErr)
+		}
+		if len(o.responses) != 0 || len(o.misb) != 0 {
+			return info, fmt.Errorf("rejected request still caused %s / misbehaviour %v", describeResponses(o.responses), o.misb)
+		}
+		return info, nil
+	}
+	if o.peerErr != nil {
+		return info, fmt.Errorf("unexpected peer error %v", o.peerErr)
+	}
+	if info.mismatch {
+		if len(o.misb) != 1 || !errors.Is(o.misb[0], basestreamseeder.ErrSelectorMismatch) {
+			return info, fmt.Errorf("live session %d was opened at %d, request says %d: want one Misbehaviour(ErrSelectorMismatch), got %v", s.sid, s.start, r.Start, o.misb)
+		}
+		if len(o.responses) != 0 {
+			return info, fmt.Errorf("selector mismatch must not be answered, got %s", describeResponses(o.responses))
+		}
+		return info, nil
+	}
 	if len(o.misb) != 0 {
 		return info, fmt.Errorf("unexpected Misbehaviour %v (session %d start %d, request start %d)", o.misb, s.sid, s.start, r.Start)
 	}
@@ -642,7 +759,7 @@ func genUniverse(t *rapid.T) []item {
 
 func genConfig(t *rapid.T) basestreamseeder.Config {
 	return basestreamseeder.Config{
-		SenderThreads:           rapid.IntRange(1, 3).Draw(t, "senderThreads"),
+		SenderThreads:           rapid.IntRange(1, 4).Draw(t, "senderThreads"),
 		MaxSenderTasks:          rapid.SampledFrom([]int{1, 4, 64}).Draw(t, "maxSenderTasks"),
 		MaxPendingResponsesSize: rapid.SampledFrom([]int64{1, 20, 60, 1 << 30, 1 << 30}).Draw(t, "maxPending"),
 		MaxResponsePayloadNum:   rapid.SampledFrom([]uint32{2, 4, 1000}).Draw(t, "cfgMaxNum"),
@@ -884,6 +1001,8 @@ func TestC17Regression(t *testing.T) {
 	runScript(t, "zero-chunk-open-then-other-start", universe, cfg, []step{rq(7, 0, 0), rq(7, 5, 1)})
 	// unregister clears the table
 	runScript(t, "unregister-clears", universe, cfg, []step{rq(1, 0, 1), {unregister: "p"}, rq(1, 0, 1)})
+	// a session resumed while its earlier responses are still queued (1-4 sender threads)
+	pipelinedRegression(t)
 	stReg.Evals(5)
 	stReg.Class("regression_scripts", 5)
 	stReg.Sample(func() interface{} { return "hand-written regression histories" })
